@@ -23,6 +23,7 @@ def check(program: Program, run: Run) -> None:
         "hash-seed independence. Nothing is executed.")
     run.rule("R1 render purity: no REBIND/MUTATE on self/param/global in the observer closure (allow: Parameterizer.create_param:self.values)")
     run.rule("R2 order-stable output: no iteration of set-kinded values (for/comprehension/join/list()/unpack) in the closure; no id()/random/time/env; hash() only in __hash__")
+    run.rule("R5 no @builder method is invoked on the rendered object itself inside the observer closure (with immutable=False the decorator does not copy)")
     run.rule("R4 no one-shot iterator (generator call, generator expression, map/filter/zip...) is stored in object state: iterating it while rendering is a write")
     run.rule("R3 fresh accumulator, frozen context: Parameterizer() constructed inside get_parameterized_sql; no mutable defaults; SqlContext frozen dataclass; copy() constructs a new SqlContext")
     run.assumptions += ["class-hierarchy call resolution (no monkey-patching)",
@@ -94,6 +95,39 @@ def check(program: Program, run: Run) -> None:
     _r3(program, run)
     # R4
     _r4(program, run)
+    # R5
+    _r5(program, run, closure)
+
+
+def _r5(program: Program, run: Run, closure) -> None:
+    """R5: the @builder decorator applies the method body to the receiver itself when the receiver was created with
+    immutable=False (utils.builder: `copy.copy(self) if getattr(self, "immutable", True) else self`).  A builder method
+    invoked on `self` from a renderer is therefore a write to the rendered object for such builders."""
+    import ast
+    n = 0
+    seen = set()
+    for f, c in sorted(closure, key=lambda k: (k[0].qualname, k[1].qualname if k[1] else "")):
+        if c is None or not f.params or f.is_static or f.is_classmethod:
+            continue
+        if "immutable" not in program.attr_kinds(c):
+            continue
+        selfn = f.params[0]
+        for node in ast.walk(f.node):
+            if isinstance(node, ast.Call) and isinstance(node.func, ast.Attribute) and isinstance(node.func.value, ast.Name) and node.func.value.id == selfn:
+                tgt = c.resolve(node.func.attr)
+                if tgt is None:
+                    continue
+                n += 1
+                if tgt.is_builder and (f.qualname, tgt.qualname) not in seen:
+                    seen.add((f.qualname, tgt.qualname))
+                    run.ob("C02/R5 no builder method is applied to the rendered object", f"{f.qualname}->{tgt.qualname}", False, where=f.loc(node))
+                    run.finding(f"C02/builder-call-while-rendering:{f.qualname}:{node.func.attr}",
+                                f"{f.qualname} calls the @builder method {tgt.qualname} on the object being rendered: for a builder created with immutable=False the decorator applies it to the object itself, "
+                                "so the render leaves the clause set on it and every later render differs", where=f.loc(node), rule="R5", excerpt=f.module.excerpt(node.lineno, 1))
+    run.ob("C02/R5 no builder method is applied to the rendered object", "observer closure", not seen, detail=f"{n} self-calls in renderers of classes with an `immutable` switch examined", nontrivial=False)
+    run.analysed["renderer_self_calls"] = n
+    if n < 100:
+        raise AnalysisError(f"instance count below floor: renderer self-calls {n}")
 
 
 LAZY_BUILTINS = {"map", "filter", "zip", "iter", "reversed", "enumerate"}
